@@ -89,6 +89,7 @@ DRIVER_PRELUDE = r'''
 #include <stdint.h>
 #include <new>
 #include <string>
+#include <locale>
 #include <vector>
 #include <utility>
 #include <stdexcept>
@@ -378,8 +379,16 @@ static bool parse(const std::string& line, request& rq)
 '''
 
 DRIVER_MAIN_HEAD = r'''
+/* the program's global locale groups digits: the text print() gives must not depend on it (defect D132) */
+struct grouping_punct : std::numpunct<char>
+{
+    char do_thousands_sep() const { return ','; }
+    std::string do_grouping() const { return "\3"; }
+};
+
 int main()
 {
+    std::locale::global(std::locale(std::locale::classic(), new grouping_punct));
     std::string line;
     request rq;
     char chunk[65536];
